@@ -237,5 +237,89 @@ Section JoinFamLive.
     destruct (rounds_is_run jst j_slots j_awaited (fun _ i => i) j_handle tuple tuple j_order (fun _ => None) j_pre_any j_finish (fun s => s) j_drop (fun _ => true) jmut (bound scs) fw0) as [ops Hops].
     exists ops. exact Hops.
   Qed.
+  (* ... and from every reachable state: after ANY history, while the join has not returned (nothing consumed, a child still pending) and has not
+     been dropped, B rounds suffice, B any bound on the remaining script lengths *)
+  Definition Ptup (s: jst) (sc: list (list step)) : Prop := P' s sc /\ j_tup s = tuple.
+  Lemma tup_handle s i a : j_tup (fst (fst (j_handle s i a))) = j_tup s.
+  Proof. destruct a as [|[v|e]|v| |]; cbn; auto. destruct (_ && _); reflexivity. Qed.
+  Lemma Ptup_run ops : Ptup (cs _ (frun fw0 ops)) (scripts _ (frun fw0 ops)).
+  Proof.
+    assert (H : forall ops w, Ptup (cs _ w) (scripts _ w) -> Ptup (cs _ (frun w ops)) (scripts _ (frun w ops))).
+    { clear ops. induction ops as [|o r IH]; intros w HP; [exact HP|]. cbn [run_ops fold_left]. apply IH.
+      destruct o as [| |c k| |m a sc]; cbn [step_op].
+      1,2: destruct (finished jst w || dropped jst w); [exact HP|];
+        apply (poll_P jst j_slots j_awaited (fun _ i => i) j_handle tuple tuple j_order (fun _ => None) j_pre_any j_finish (fun s => s) j_drop (fun _ => true) j_Q
+                 J1 J8 J10 J12 Ptup); try exact HP; unfold Ptup.
+      - intros s sc i stp sc' Ha Hi E [H1 H2]. split; [apply (P'_handle s sc i stp sc' Ha Hi E H1)|rewrite tup_handle; exact H2].
+      - intros s is s1 sc E [H1 H2]. split; [eapply P'_order; eauto|destruct (j_order_some _ _ _ E) as [_ ->]; exact H2].
+      - intros s sc [H1 H2]. split; [apply P'_finish, H1|unfold j_finish; destruct (_ && _); cbn; exact H2].
+      - intros s sc H. exact H.
+      - intros s sc [H1 _]. apply H1.
+      - intros s sc i stp sc' Ha Hi E [H1 H2]. split; [apply (P'_handle s sc i stp sc' Ha Hi E H1)|rewrite tup_handle; exact H2].
+      - intros s is s1 sc E [H1 H2]. split; [eapply P'_order; eauto|destruct (j_order_some _ _ _ E) as [_ ->]; exact H2].
+      - intros s sc [H1 H2]. split; [apply P'_finish, H1|unfold j_finish; destruct (_ && _); cbn; exact H2].
+      - intros s sc H. exact H.
+      - intros s sc [H1 _]. apply H1.
+      - destruct (fire_handle_pass jst j_slots (emit jst w [EO]) c k) as [Hc Hs]. rewrite Hc, Hs. exact HP.
+      - destruct (dropped jst w); exact HP.
+      - destruct (dropped jst w); exact HP. }
+    apply H. split; [apply PW'_init|reflexivity].
+  Qed.
+  Lemma frun_app w a b : frun (frun w a) b = frun w (a ++ b).
+  Proof. unfold run_ops. rewrite fold_left_app. reflexivity. Qed.
+  Lemma join_Inv_run ops : Inv jst j_slots j_awaited j_Q (frun fw0 ops).
+  Proof.
+    apply (Inv_run jst j_slots j_awaited (fun _ i => i) j_handle tuple tuple j_order (fun _ => None) j_pre_any j_finish (fun s => s) j_drop
+             (fun _ => true) j_Q J1 J2 J3 J4 J5 J6 J7 J8 J9 J10 J11 J12 J13 J14 J15 J16 J17 (fun _ => eq_refl) (fun _ _ _ => eq_refl) (fun _ H => H)
+             jmut jmut_inv). apply (join_init tuple).
+  Qed.
+  Lemma join_LiveI_run ops : LiveI jst j_slots (fun _ i => i) (fun _ _ => true) j_slots (fun a => a <> APanic) (frun fw0 ops).
+  Proof.
+    eapply (LiveI_run jst j_slots j_awaited (fun _ i => i) j_handle tuple tuple j_order (fun _ => None) j_pre_any j_finish (fun s => s) j_drop (fun _ => true) j_Q)
+      with (US := USj tuple) (okscript := fun _ => True);
+      try first [exact J1|exact J2|exact J3|exact J4|exact J5|exact J6|exact J7|exact J8|exact J9|exact J10|exact J11|exact J12|exact J13|exact J14|exact J15|exact J16|exact J17
+                |exact (fun _ => eq_refl)|exact (fun _ _ _ => eq_refl)|exact (fun _ H => H)|exact jmut_inv|exact (fun _ _ _ _ _ => eq_refl)
+                |exact (fun _ _ _ _ _ _ _ _ H => H)|exact (fun _ _ _ H _ => H)|exact (fun s i a _ _ _ => conj (J1 s i a) (fun _ _ _ => conj eq_refl eq_refl))
+                |exact (fun s is s1 _ E => conj (J10 s is s1 E) (fun _ _ _ => conj eq_refl eq_refl))|exact (fun s _ => conj (J15 s) (fun _ _ _ => conj eq_refl eq_refl))
+                |exact (fun s _ => conj eq_refl (fun _ _ _ => conj eq_refl eq_refl))|exact (j_abort_panic)|exact APend_not_panic
+                |exact (fun s i a s' e _ _ _ => USj_cont tuple scs Hn s i a s' e)|exact (fun w _ _ _ _ H _ => H)].
+    - apply (join_init tuple).
+    - split; [reflexivity|]. split; [exact Hnp|].
+      unfold HT, N, j_slots, polled. cbn. rewrite !repeat_length. split; [reflexivity|]. split; [reflexivity|].
+      intros c Hc _. rewrite !repeat_nth by exact Hc. split; [intros h []|discriminate].
+    - apply Forall_forall. intros o _. destruct o; exact I.
+  Qed.
+
+  Theorem joinfam_returns_from ops B : let w := frun fw0 ops in
+    finished _ w = false -> dropped _ w = false -> j_consumed (cs _ w) = false -> 0 < pending (cs _ w) ->
+    (forall j, length (nth j (scripts _ w) []) <= B) -> 1 <= B ->
+    let w' := frounds B w in finished _ w' = true /\ returned _ w' /\ dropped _ w' = false /\ exists ops', w' = join_run tuple tryj scs ops'.
+  Proof.
+    intros w Hf Hd Hc Hp HB HB1. cbv zeta.
+    assert (X : finished _ (frounds B w) = true /\ returned _ (frounds B w) /\ dropped _ (frounds B w) = false).
+    { eapply (fair_executor_returns jst j_slots j_awaited (fun _ i => i) j_handle tuple tuple j_order (fun _ => None) j_pre_any j_finish (fun s => s) j_drop (fun _ => true) j_Q)
+        with (occ := fun _ _ => true) (nmem := j_slots) (okans := fun a => a <> APanic) (TS := TSj tuple) (US := USj tuple);
+        try first [exact J1|exact J2|exact J3|exact J4|exact J5|exact J6|exact J7|exact J8|exact J9|exact J10|exact J11|exact J12|exact J13|exact J14|exact J15|exact J16|exact J17
+                  |exact (fun _ => eq_refl)|exact (fun _ _ _ => eq_refl)|exact (fun _ H => H)|exact jmut_inv|exact (fun _ _ _ _ _ => eq_refl)
+                  |exact (fun _ _ _ _ _ _ _ _ H => H)|exact (fun _ _ _ H _ => H)|exact (fun s i a _ _ _ => conj (J1 s i a) (fun _ _ _ => conj eq_refl eq_refl))
+                  |exact (fun s is s1 _ E => conj (J10 s is s1 E) (fun _ _ _ => conj eq_refl eq_refl))|exact (fun s _ => conj (J15 s) (fun _ _ _ => conj eq_refl eq_refl))
+                  |exact (fun s _ => conj eq_refl (fun _ _ _ => conj eq_refl eq_refl))|exact (j_abort_panic)|exact APend_not_panic
+                  |exact (fun s i a s' e _ _ _ => USj_cont tuple scs Hn s i a s' e)|exact (TSj_order tuple)|exact (USj_finish tuple scs Hn)|exact (USj_endp tuple)|exact (TSj_order_some tuple)
+                  |exact Hd|exact Hf|exact HB|exact HB1].
+      - apply join_Inv_run.
+      - apply join_LiveI_run.
+      - split; [apply (proj2 (Ptup_run ops))|]. split; [exact Hc|exact Hp].
+      - intros r j Hj (_ & Hc' & _) Ha.
+        destruct (rounds_is_run jst j_slots j_awaited (fun _ i => i) j_handle tuple tuple j_order (fun _ => None) j_pre_any j_finish (fun s => s) j_drop (fun _ => true) jmut r w) as [ops' Hops].
+        unfold rem. pose proof (PW'_run (ops ++ ops') fw0 PW'_init) as (_ & Hlen & Hm). rewrite <- frun_app in Hlen, Hm. fold w in Hlen, Hm. rewrite <- Hops in Hlen, Hm.
+        pose proof (PW'_run ops fw0 PW'_init) as (_ & Hlen0 & _). fold w in Hlen0.
+        assert (Hj' : j < n) by (unfold N, j_slots in Hj; rewrite Hlen0 in Hj; exact Hj).
+        destruct (aw_in_range _ _ Ha) as [_ Hpj]. specialize (Hm Hc' j Hj' Hpj).
+        destruct (nth j (scripts jst (frounds r w)) []); [discriminate|cbn; lia].
+      - intros s HQ HT. apply (TSj_some tuple); auto. }
+    destruct X as (A & Bx & C). split; [exact A|]. split; [exact Bx|]. split; [exact C|].
+    destruct (rounds_is_run jst j_slots j_awaited (fun _ i => i) j_handle tuple tuple j_order (fun _ => None) j_pre_any j_finish (fun s => s) j_drop (fun _ => true) jmut B w) as [ops' Hops].
+    exists (ops ++ ops'). rewrite Hops. unfold w. apply frun_app.
+  Qed.
 End JoinFamLive.
 Print Assumptions joinfam_fair_returns.
